@@ -395,6 +395,16 @@ class InterpCore(object):
                 return Const(b.v * int(a.const()))
             if isinstance(a, ListV) and isinstance(b, Num) and b.const() is not None:
                 return ListV(a.items * int(b.const()), a.kind)
+        # sets that were only ever filled outside symbolic loops are ordinary concrete sets
+        if isinstance(op, (ast.BitOr, ast.BitAnd, ast.Sub, ast.BitXor)):
+            def _as_set(v):
+                if type(v).__name__ == "SetAccV" and not v.adds:
+                    seen = {}
+                    for c in v.concrete:
+                        seen.setdefault(c.key(), c)
+                    return ListV(list(seen.values()), "set")
+                return v
+            a, b = _as_set(a), _as_set(b)
         if isinstance(op, (ast.BitOr, ast.BitAnd, ast.Sub, ast.BitXor)) and isinstance(a, ListV) and isinstance(b, ListV) \
                 and a.kind == "set" and b.kind == "set":
             ka = dict((x.key(), x) for x in a.items)
@@ -412,6 +422,12 @@ class InterpCore(object):
             return ListV([allv[k] for k in keys], "set")
         if isinstance(a, Unknown) or isinstance(b, Unknown):
             return Unknown("arith")
+        def _container(v):
+            return isinstance(v, (ListV, DictV, SeqV)) or type(v).__name__ in ("SetAccV", "NTV", "LoopDictV")
+        if _container(a) and _container(b):
+            # Python defines operators between containers (set algebra, concatenation, dict union); one the evaluator does
+            # not model is the evaluator's gap, not a TypeError of the program
+            self.err(node, "operator %s between %r and %r" % (type(op).__name__, a, b))
         x = self.num(a, node)
         y = self.num(b, node)
         inex = bool(getattr(a, "inexact", False) or getattr(b, "inexact", False))
@@ -543,6 +559,12 @@ class InterpCore(object):
         # ordering
         if isinstance(a, Unknown) or isinstance(b, Unknown):
             return Cond("unknown", Const(next(self.fresh)))
+        if (isinstance(a, (ListV, SeqV)) or type(a).__name__ == "NTV" or is_strlike(a)) \
+                and (isinstance(b, (ListV, SeqV)) or type(b).__name__ == "NTV" or is_strlike(b)):
+            if isinstance(a, Const) and isinstance(b, Const) and isinstance(a.v, str) and isinstance(b.v, str):
+                return {"Lt": a.v < b.v, "LtE": a.v <= b.v, "Gt": a.v > b.v, "GtE": a.v >= b.v}[opn]
+            # sequences and strings are ordered lexicographically in Python: not a TypeError, just not modelled here
+            self.err(node, "ordering comparison of %r and %r" % (a, b))
         x = self.num(a, node)
         y = self.num(b, node)
         cx, cy = x.as_const(), y.as_const()
